@@ -6,13 +6,13 @@ toolchain go1.23.5
 
 require (
 	github.com/hugelgupf/p9 v0.0.0
+	golang.org/x/sys v0.15.0
 	pgregory.net/rapid v1.3.0
 )
 
 require (
 	github.com/u-root/uio v0.0.0-20230305220412-3e8cd9d6bf63 // indirect
 	golang.org/x/exp v0.0.0-20231219180239-dc181d75b848 // indirect
-	golang.org/x/sys v0.15.0 // indirect
 )
 
 replace github.com/hugelgupf/p9 => /repo
